@@ -10,6 +10,9 @@ import GormModel.Gen.MigrateOptFacts
 import GormModel.Model.MigrateJoin
 import GormModel.Lemmas.MigrateJoin
 import GormModel.Gen.MigrateJoinFacts
+import GormModel.Model.MigrateCols
+import GormModel.Lemmas.MigrateCols
+import GormModel.Gen.MigrateColsFacts
 namespace Gorm.Mig
 
 /-- CORE LEMMA.  For EVERY field declaration, MigrateColumn on the column report of a faithful dialect issues nothing:
@@ -747,5 +750,164 @@ theorem C20_join_column_unique_partial (pre post : List Str) (hot : Str)
 /-- non-vacuity: `size:10;uniqueIndex:ux;not null` -/
 example : (joinCol joinStrip (gormTag (joinWith ';' (["size:10".toList] ++ "uniqueIndex:ux".toList :: ["not null".toList])))).unique = false := by
   decide
+
+/-! ## Round 4: one decision per COLUMN (several struct fields mapping to one column), and the table name the
+    constraint look-ups use (schema-qualified table names) -/
+
+/-- `Schema.DBNames` / `FieldsByDBName` hold each column name once and miss no field's column; every owner is a field
+    of the struct. -/
+theorem C20_columns_resolved_once (raw : List RawField) :
+    ((resolveColumns raw).map (·.dbName)).Nodup ∧
+    (∀ f ∈ raw, f.decl.dbName ≠ [] → f.decl.dbName ∈ (resolveColumns raw).map (·.dbName)) ∧
+    (∀ d ∈ resolveColumns raw, ∃ f ∈ raw, f.decl = d) :=
+  ⟨resolveColumns_nodup raw, fun f hf he => resolveColumns_complete raw f hf he, fun d hd => resolveColumns_from_raw raw d hd⟩
+
+/-- whatever the catalog, AutoMigrate's column loop (over the owners of the columns) issues ADD COLUMN at most once per
+    column name — also for models in which gorm.Model / a base struct is shadowed by own fields, a `column:` tag appears
+    twice, or a struct is embedded twice -/
+theorem C20_one_add_per_column (t : Str) (cols : List (Str × ColumnInfo)) (raw : List RawField) :
+    (addedNames (columnDDL t cols (resolveColumns raw))).Nodup :=
+  addedNames_columnDDL_nodup t cols _ (resolveColumns_nodup raw)
+
+/-- IDEMPOTENCE for models whose struct fields SHARE columns: the table CreateTable produced from the column owners is
+    left alone by the next AutoMigrate (no hypothesis on the field list: the ownership loop provides distinct names) -/
+theorem C20_second_run_after_create_shared_columns (reflect : FieldDecl → ColumnInfo) (h : Faithful reflect)
+    (table : Str) (raw : List RawField) (fks checks indexes : List Str) (c : Catalog) (hnew : lookup table c = none) :
+    autoMigrateOne (modelOfRaw table raw fks checks indexes) c = [.createTable (modelOfRaw table raw fks checks indexes)] ∧
+    autoMigrateOne (modelOfRaw table raw fks checks indexes)
+      (applyAll reflect (autoMigrateOne (modelOfRaw table raw fks checks indexes) c) c) = [] :=
+  C20_second_run_after_create reflect h (modelOfRaw table raw fks checks indexes) c hnew (resolveColumns_nodup raw)
+
+def shTime : FieldDecl :=
+  { dbName := "updated_at".toList, ignoreMigration := false, primaryKey := false, dataTypeSql := "datetime".toList, size := 0,
+    precision := 0, notNull := false, hasDefault := false, defaultIface := false, defaultValue := [], defaultExplained := [],
+    gtype := .time, comment := [], unique := false }
+def shInt : FieldDecl := { shTime with dataTypeSql := "integer".toList, size := 64, gtype := .other }
+/-- `struct { gorm.Model; UpdatedAt int64 }`: the embedded `UpdatedAt time.Time` (bind path of length 2) and the own one -/
+def shRaw : List RawField := [{ decl := shTime, depth := 2, perm := true }, { decl := shInt, depth := 1, perm := true }]
+def shReflect (f : FieldDecl) : ColumnInfo :=
+  { typeName := f.dataTypeSql, aliases := [], length := (0, false), decimal := (0, false), nullable := (!f.notNull, true),
+    dflt := ([], false), comment := ([], false), unique := (f.unique, true) }
+
+/-- WHY the loop must run over columns: visiting every struct FIELD that maps to a column (`Schema.Fields`) compares the
+    shadowed field with the owner's column and alters it on every run, and adds a missing shared column twice. -/
+theorem C20_per_field_loop_counterexample :
+    resolveColumns shRaw = [shInt] ∧
+    columnDDL ['t'] (createdCols shReflect (resolveColumns shRaw)) (resolveColumns shRaw) = [] ∧
+    columnDDL ['t'] (createdCols shReflect (resolveColumns shRaw)) (columnFields shRaw) = [.alterColumn ['t'] shTime] ∧
+    addedNames (columnDDL ['t'] [] (columnFields shRaw)) = ["updated_at".toList, "updated_at".toList] := by
+  decide
+
+/-- TIE (regenerated facts): the loops of AutoMigrate and CreateTable that add / compare / declare columns range over
+    `stmt.Schema.DBNames` and take the field from `stmt.Schema.FieldsByDBName[dbName]` — the list `resolveColumns` models. -/
+theorem C20_column_loop_sites :
+    Gen.migColumnLoops = [
+      { fn := "AutoMigrate", over := "stmt.Schema.DBNames", key := "_", val := "dbName",
+        fields := ["stmt.Schema.FieldsByDBName[dbName]"], calls := ["AddColumn(value, dbName)", "MigrateColumn(value, field, foundColumn)"] },
+      { fn := "CreateTable", over := "stmt.Schema.DBNames", key := "_", val := "dbName",
+        fields := ["stmt.Schema.FieldsByDBName[dbName]"], calls := ["FullDataTypeOf(field)"] }] := by
+  decide
+
+/-- FINDING F33 (unchanged tree): `ParseUniqueConstraints` ranges over `Schema.Fields`, so CREATE TABLE declares
+    UNIQUE(col) for a `unique` tag on a field that LOST `col` to another field; the next AutoMigrate compares the owner
+    (not unique) with the column (unique) and drops the constraint — a schema change on a repeated run. -/
+def shA : FieldDecl := { shInt with dbName := "shared".toList }
+def shB : FieldDecl := { shInt with dbName := "shared".toList, dataTypeSql := "text".toList, size := 0, unique := true }
+def shURaw : List RawField := [{ decl := shA, depth := 1, perm := true }, { decl := shB, depth := 1, perm := true }]
+
+theorem C20_shadowed_unique_counterexample :
+    Gen.migConstraintRanges = [("ParseCheckConstraints", "schema.FieldsByDBName"), ("ParseUniqueConstraints", "schema.Fields")] ∧
+    resolveColumns shURaw = [shA] ∧
+    columnDDL ['t'] (createdColsU shReflect (declaredUnique shURaw) (resolveColumns shURaw)) (resolveColumns shURaw)
+      = [.dropUnique ['t'] shA] := by
+  decide
+
+/-- … and only then: when no shadowed field adds a `unique` the owner does not carry, CREATE TABLE declares exactly the
+    owners' uniqueness and the idempotence theorem above applies. -/
+theorem C20_shadowed_unique_partial (reflect : FieldDecl → ColumnInfo) (u : Str → Bool) (fs : List FieldDecl)
+    (h : ∀ f ∈ fs, u f.dbName = (reflect f).unique.1) : createdColsU reflect u fs = createdCols reflect fs := by
+  induction fs with
+  | nil => rfl
+  | cons f r ih =>
+    have hr := ih (fun g hg => h g (by simp [hg]))
+    have hf := h f (by simp)
+    cases hi : f.ignoreMigration with
+    | true => simp [createdColsU, createdCols, hi, hr]
+    | false => simp [createdColsU, createdCols, hi, hr, hf]
+
+/-! ### table names -/
+
+/-- the look-ups for CHECK, UNIQUE and belongs-to constraints use the name under which the catalogue files the table
+    (`stmt.Table`), whatever the spelling of the schema's table name -/
+theorem C20_constraint_lookup_table (s : Str) (k : Found)
+    (hk : k = .check ∨ k = .unique ∨ ∃ r, k = .rel r ∧ r.typ = .belongsTo) : guessTable s k = catalogName s := by
+  rcases hk with rfl | rfl | ⟨r, rfl, hr⟩
+  · rfl
+  · rfl
+  · simp [guessTable, getTable, getTableArm, hr, catalogName]
+
+/-- for a schema-qualified table `schema.table` that name is the bare `table` -/
+theorem C20_constraint_lookup_qualified (a b : Str) (ha : Undotted a) (hb : Undotted b) (k : Found)
+    (hk : k = .check ∨ k = .unique ∨ ∃ r, k = .rel r ∧ r.typ = .belongsTo) : guessTable (a ++ '.' :: b) k = b := by
+  rw [C20_constraint_lookup_table _ k hk]
+  exact stmtTable_qualified a b ha hb
+
+/-- TIE (regenerated facts): the answers of GuessConstraintInterfaceAndTable, its getTable closure, the two places that
+    split a qualified name, and the table spelling each constraint / index name is derived from -/
+theorem C20_guess_table_sites :
+    Gen.guessReturns = [("nil", "stmt.Table"), ("&chk", "stmt.Table"), ("&uni", "stmt.Table"), ("constraint", "getTable(rel)"),
+      ("&v", "stmt.Table"), ("&v", "stmt.Table"), ("constraint", "getTable(rel)"), ("nil", "stmt.Schema.Table")] ∧
+    Gen.guessGetTable = [("schema.HasOne, schema.HasMany", "rel.FieldSchema.Table"), ("schema.Many2Many", "rel.JoinTable.Table"),
+      ("default", "stmt.Table")] ∧
+    Gen.stmtTableSplit = [("Table", "tables := strings.Split(name, \".\"); len(tables) == 2", "tables[1]"),
+      ("ParseWithSpecialTableName", "tables := strings.Split(stmt.Schema.Table, \".\"); len(tables) == 2", "tables[1]")] ∧
+    Gen.constraintNameArgs = [("migrator.MigrateColumnUnique", "UniqueName", "stmt.Table"),
+      ("schema.ParseCheckConstraints", "CheckerName", "schema.Table"), ("schema.ParseUniqueConstraints", "UniqueName", "schema.Table"),
+      ("schema.parseFieldIndexes", "IndexName", "field.Schema.Table")] := by
+  decide
+
+/-- FINDING F32 (unchanged tree): for a has-one / has-many constraint the look-up answers with the CHILD schema's table
+    name as declared — `main.kids` — while the catalogue knows `kids`: HasConstraint misses, CreateConstraint cannot
+    find the table's DDL. -/
+theorem C20_child_constraint_lookup_counterexample :
+    guessTable "parents".toList (.rel { typ := .hasMany, fieldSchemaTable := "main.kids".toList, joinTable := [] }) = "main.kids".toList ∧
+    catalogName "main.kids".toList = "kids".toList := by
+  decide
+
+theorem C20_child_constraint_lookup_partial (s : Str) (r : RelTables) (hr : r.typ = .hasOne ∨ r.typ = .hasMany)
+    (hu : Undotted r.fieldSchemaTable) : guessTable s (.rel r) = catalogName r.fieldSchemaTable := by
+  rcases hr with hr | hr <;> simp [guessTable, getTable, getTableArm, hr, catalogName, stmtTable_undotted _ hu]
+
+/-- FINDING F31 (unchanged tree): a `unique` added to an existing column of a schema-qualified table.  MigrateColumnUnique
+    names the constraint after `stmt.Table`, the schema's parser after `schema.Table`: the name is not found, the
+    fall-through answers with the qualified table name. -/
+theorem C20_added_unique_qualified_counterexample :
+    migrateUniqueFound "main.items".toList ['a'] = .none ∧
+    guessTable "main.items".toList (migrateUniqueFound "main.items".toList ['a']) = "main.items".toList ∧
+    catalogName "main.items".toList = "items".toList := by
+  decide
+
+theorem C20_added_unique_partial (s col : Str) (h : Undotted s) :
+    guessTable s (migrateUniqueFound s col) = catalogName s := by
+  simp [migrateUniqueFound, stmtTable_undotted s h, guessTable, catalogName]
+
+/-- FINDING F34 (unchanged tree, SQLite): a numeric Go kind whose `type:` tag carries a digit group — `int(11)`,
+    `decimal(10,2)`, `bigint(20)`.  Field.Size is the Go bit size (64), the dialect reports the digit group as the column
+    length (11): "check size" alters the column on every run. -/
+def int11 : FieldDecl := { shInt with dbName := ['a'], dataTypeSql := "int(11)".toList }
+def int11Report : ColumnInfo :=
+  { typeName := "int".toList, aliases := [], length := (11, true), decimal := (0, false), nullable := (true, true),
+    dflt := ([], false), comment := ([], false), unique := (false, true) }
+
+theorem C20_numeric_type_digit_group_counterexample : migrateColumn int11 int11Report = [.alter] := by decide
+
+/-- … and only through the size comparison: a report whose length is acceptable (`LenOk`: the declared size, or not
+    comparable) never triggers "check size" -/
+theorem C20_numeric_type_digit_group_partial (f : FieldDecl) (ci : ColumnInfo) (h : Agrees f ci) : sizeAlter f ci = false :=
+  sizeAlter_agrees h
+
+example : Undotted "main".toList ∧ Undotted "items".toList := by unfold Undotted; decide
+example : stmtTable ("main".toList ++ '.' :: "items".toList) = "items".toList := by decide
+example : resolveColumns shRaw ≠ columnFields shRaw := by decide
 
 end Gorm.Mig
